@@ -376,7 +376,16 @@ def run(ctx):
            for _ in range(ctx.n(300, 3000))]
     fails += ctx.prop('prop:maintainer', mnt, p_maintainer)
 
+    def model_ops(ops):
+        out = []
+        for o in ops:
+            if o[0] == 'observe':
+                continue
+            out.append([o[0], o[1], 'dflt'] if o[0] == 'popdefault' else o)
+        return out
     hreqs = [('debian822_history', [r if r != 'file' else 'text2', i, o]) for r, i, o in hist + small]
+    # the histories with update / setdefault / pop / clear (looking-only operations left out: the model has no such operation)
+    hreqs += [('debian822_history', [r if r != 'file' else 'text2', i, model_ops(o)]) for r, i, o in hist_obs[:ctx.n(1500, 20000)]]
     bad = ctx.compare('corr:history', hreqs, impl)
     bad += ctx.compare('corr:normalize', [('normalize_control_field_name', [c]) for n in names for c in casings(n)], _copy.impl)
     bad += ctx.compare('corr:parse_control_fields', [('parse_control_fields', [t]) for t in typed], impl,
